@@ -84,3 +84,60 @@ func TestC07NameCollisions(t *testing.T) {
 		}
 	}
 }
+
+const ruleRemoveOverwrite = "enumeration: 2-5 pipelines of one event type registered in order; every choice of one pipeline to remove (RemovePipeline or RemovePipelineAndNodes) followed by every choice of another pipeline to overwrite (with another sink; default policy or DenyOverwrite), optionally followed by a third pipeline's overwrite and by registering the removed id again; the registry state (who receives a Send, in-use accounting) is probed after every step; oracle = the sequential registry specification: exactly one version of the overwritten pipeline and every untouched pipeline receive the next Send; non-trivial = >= 3 pipelines; distinct = configuration"
+
+// TestC07RemoveThenOverwrite: "only by the new one once the overwriting call has returned", after the registry's
+// internal order was disturbed by an earlier removal.
+func TestC07RemoveThenOverwrite(t *testing.T) {
+	sec := stats.Sec("remove_then_overwrite", ruleRemoveOverwrite)
+	for n := 2; n <= 5; n++ {
+		for rmKind := 0; rmKind < 2; rmKind++ {
+			for i := 0; i < n; i++ {
+				for j := 0; j < n; j++ {
+					if i == j {
+						continue
+					}
+					for pol := 0; pol <= 2; pol += 2 {
+						ops := []model.Op{{K: "regnode", N: "n", NT: fmtT}, {K: "regnode", N: "alt", NT: sinkT}}
+						for k := 0; k < n; k++ {
+							ops = append(ops, model.Op{K: "regnode", N: fmt.Sprintf("s%d", k), NT: sinkT})
+						}
+						for k := 0; k < n; k++ {
+							ops = append(ops, model.Op{K: "regpipe", ET: "A", P: fmt.Sprintf("p%d", k), IDs: []string{"n", fmt.Sprintf("s%d", k)}})
+						}
+						rm := model.Op{K: "rmpipe", ET: "A", P: fmt.Sprintf("p%d", i)}
+						if rmKind == 1 {
+							rm.K = "rpan"
+						}
+						ops = append(ops, rm,
+							model.Op{K: "regpipe", ET: "A", P: fmt.Sprintf("p%d", j), IDs: []string{"n", "alt"}, Pol: pol})
+						if third := (j + 1) % n; third != i && third != j {
+							ops = append(ops, model.Op{K: "regpipe", ET: "A", P: fmt.Sprintf("p%d", third), IDs: []string{"n", "alt"}})
+						}
+						ops = append(ops, model.Op{K: "regnode", N: fmt.Sprintf("s%d", i), NT: sinkT},
+							model.Op{K: "regpipe", ET: "A", P: fmt.Sprintf("p%d", i), IDs: []string{"n", fmt.Sprintf("s%d", i)}})
+						ids := []string{"n", "alt"}
+						for k := 0; k < n; k++ {
+							ids = append(ids, fmt.Sprintf("s%d", k))
+						}
+						var msg string
+						func() {
+							defer func() {
+								if r := recover(); r != nil {
+									msg = fmt.Sprintf("a registry call panicked: %v", r)
+								}
+							}()
+							msg, _ = run(nil, ops, []string{"A"}, ids)
+						}()
+						if msg != "" {
+							stats.Violation("TestC07RemoveThenOverwrite", map[string]interface{}{"ops": ops, "history": model.Describe(ops), "message": msg})
+							t.Fatalf("VIOLATION C07: %s\nhistory: %s", msg, model.Describe(ops))
+						}
+						sec.Case(n >= 3, fmt.Sprintf("pipelines=%d remove=p%d(kind %d) overwrite=p%d pol=%d", n, i, rmKind, j, pol), fmt.Sprintf("pipelines=%d", n))
+					}
+				}
+			}
+		}
+	}
+}
